@@ -50,6 +50,16 @@ PROFILES = {
         "go": {"type_mappings": {"Mapped": "GoMapped", "Mapped2": "Second"}, "uppercase_acronyms": ["URL", "ID"], "no_pointer_slice": False},
         "python": {"type_mappings": {"Mapped": "PyMapped"}},
     },
+    # a mapping for a type that is used WITH generic arguments the backend could not (or would otherwise) translate: the mapped name
+    # replaces the whole reference, arguments included - nothing about the arguments is looked at
+    "generic_mapped": {
+        "swift": {"type_mappings": {"Mapped": "SwiftMapped", "Stamped": "SwiftStamp"}},
+        "kotlin": {"type_mappings": {"Mapped": "KotlinMapped", "Stamped": "KotlinStamp"}},
+        "scala": {"type_mappings": {"Mapped": "ScalaMapped", "Stamped": "ScalaStamp"}},
+        "typescript": {"type_mappings": {"Mapped": "TsMapped", "Stamped": "TsStamp"}},
+        "go": {"type_mappings": {"Mapped": "GoMapped", "Stamped": "GoStamp"}},
+        "python": {"type_mappings": {"Mapped": "PyMapped"}},
+    },
     # one entry lists where the single entry is also the other list's entry; mapping onto the Rust name of another field's type
     "same": {
         "swift": {"type_mappings": {"Mapped2": "Mapped"}, "default_decorators": ["Equatable"], "default_generic_constraints": ["Equatable"],
@@ -113,7 +123,7 @@ def observe(lang, text, profile="basic"):
         o["defs"] += o2["defs"]
         o.setdefault("helper_inherits", {}).update(o2.get("helper_inherits", {}))
     foo = [d for d in o["defs"] if d["name"].endswith("Foo")][0]
-    fld = {"Mapped": "m", "Mapped2": "m2"}
+    fld = {"Mapped": "m", "Mapped2": "m2", "Stamped": "st"}
     tobs["type_mappings"] = {k: [m["ty"].get("n") for m in foo["members"] if m["key"] == fld[k]][0] for k in t.get("type_mappings", {})}
     if lang == "swift":
         obs["swift_prefix"] = foo["name"][:-3]
@@ -164,7 +174,8 @@ def run_case(work, idx, c):
     events = []
     root = os.path.join(work, f"c{idx}")
     src = os.path.join(root, "a", "b", "proj")
-    cli.make_tree(src, {"src/lib.rs": SRC})
+    # profile generic_mapped: Foo also has a member of the mapped generic type, applied to arguments no backend but Go / TypeScript / Python translates
+    cli.make_tree(src, {"src/lib.rs": SRC if c.get("tables", "basic") != "generic_mapped" else SRC.replace("pub unit: (),", "pub unit: (), pub st: Stamped<OffsetDateTime, Vec<u64>>,")})
     disc = c["disc"]
     cwd = {"flag": os.path.join(root, "elsewhere"), "cwd": root, "parent": os.path.join(root, "a"), "grandparent": os.path.join(root, "a", "b"),
            "flag_over_cwd": os.path.join(root, "elsewhere"), "flag_over_parent": os.path.join(root, "elsewhere", "sub"),
